@@ -252,10 +252,37 @@ static void witness_phase() {
         } catch (vpsc::CriticalFailure &f) { ctx.library_abort(f.what(), desc); }
         ctx.done_case(); }
 }
+// Several checkpoints strictly inside ONE straight segment.  Two walls leave a vertical corridor x in [8,12] cells; connector A runs from the left above the
+// walls to the right below them (a Z: along its row, down the corridor, along the target's row), with two checkpoints on its first row, the second one inside the
+// corridor's x-range: the vertical run may not be moved to the left of the LAST checkpoint.  Optionally a second connector B through the same corridor (either creation
+// order), the target entered from the left or freely, A also reversed (the checkpoints then lie on its last segment).  Clause: "never moves a checkpoint off its route"
+// (and the endpoints stay).
+static void two_checkpoints_phase(double nd) {
+    ctx.phase(mcx::fmt("two checkpoints inside one segment before a vertical corridor, nd=%g: checkpoint positions x second connector x creation order x target direction x reversed", nd));
+    static const double C1[3] = {2, 5, 8.5}, C2[5] = {8.5, 9, 10, 11, 11.5};
+    for (double c1 : C1) for (double c2 : C2) for (int withB = 0; withB < 3; withB++) for (int dl = 0; dl < 2; dl++) for (int rev = 0; rev < 2; rev++) for (int ya = 3; ya <= 5; ya += 2) { if (!(c1 < c2)) continue; if (!ctx.next()) continue;
+        ctx.count("states"); ctx.count("nontrivial"); ctx.count("evaluations"); ctx.count("transitions");
+        string desc = mcx::fmt("two checkpoints (%g,%d) (%g,%d) cells on connector A (0,%d)->(20,15)%s, corridor x in [8,12] between walls y in [7,13], nd=%g, %s, target entered %s", c1, ya, c2, ya, ya, rev ? " created reversed" : "", nd, withB == 0 ? "A alone" : withB == 1 ? "B (0,1)->(20,17) created after A" : "B created before A", dl ? "from the left" : "freely");
+        ctx.sample(desc, 1); ctx.announce(desc);
+        try { Router *r = new Router(OrthogonalRouting); r->setRoutingParameter(segmentPenalty, 50); r->setRoutingParameter(idealNudgingDistance, nd);
+            Rectangle lw(Point(-5 * S, 7 * S), Point(8 * S, 13 * S)), rw(Point(12 * S, 7 * S), Point(25 * S, 13 * S)); new ShapeRef(r, lw); new ShapeRef(r, rw);
+            Point a0(0, ya * S), a1(20 * S, 15 * S); ConnRef *A = nullptr, *B = nullptr; ConnDirFlags dd = dl ? (ConnDirFlags)ConnDirLeft : (ConnDirFlags)ConnDirAll;
+            auto mkA = [&] { A = rev ? new ConnRef(r, ConnEnd(a1, dd), ConnEnd(a0)) : new ConnRef(r, ConnEnd(a0), ConnEnd(a1, dd)); vector<Checkpoint> v; if (rev) { v.push_back(Checkpoint(Point(c2 * S, ya * S))); v.push_back(Checkpoint(Point(c1 * S, ya * S))); } else { v.push_back(Checkpoint(Point(c1 * S, ya * S))); v.push_back(Checkpoint(Point(c2 * S, ya * S))); } A->setRoutingCheckpoints(v); };
+            auto mkB = [&] { B = new ConnRef(r, ConnEnd(Point(0, 1 * S)), ConnEnd(Point(20 * S, 17 * S), dd)); };
+            if (withB == 2) mkB(); mkA(); if (withB == 1) mkB();
+            r->processTransaction();
+            const PolyLine &d = A->displayRoute(); Point s0 = rev ? a1 : a0, s1 = rev ? a0 : a1;
+            if (d.size() < 2 || d.ps[0].x != s0.x || d.ps[0].y != s0.y || d.ps[d.size() - 1].x != s1.x || d.ps[d.size() - 1].y != s1.y) ctx.violation("endpoint_moved", {"two_checkpoints"}, desc, rstr(d));
+            for (double cx : {c1, c2}) if (!onRoute(d, Point(cx * S, ya * S))) { ctx.violation("checkpoint_off_route", (withB && !rev) ? vector<string>{"two_checkpoints", "second_connector_shares_the_corridor_with_the_checkpointed_one"} : vector<string>{"two_checkpoints"}, desc, mcx::fmt("checkpoint (%g,%g) route %s", cx * S, (double)ya * S, rstr(d).c_str()) + (B ? " | B " + rstr(B->displayRoute()) : string())); break; }
+            delete r;
+        } catch (vpsc::CriticalFailure &f) { ctx.library_abort(f.what(), desc); }
+        ctx.done_case(); }
+}
 int main(int argc, char **argv) {
     ctx.init(argc, argv);
     bool T = ctx.thorough();
     witness_phase();
+    for (double nd2 : {4.0, 10.0}) two_checkpoints_phase(nd2);
     for (double nd : {1.0, 4.0, 12.0}) for (unsigned o = 0; o < 16; o++) { phase(2, {nd, 1, o, 0, false}); phase(3, {nd, 1, o, 0, false}); phase(2, {nd, 2, o, 0, false}); phase(2, {nd, 1, o, 0, true}); }
     for (double nd : {4.0, 12.0}) for (unsigned o : {0u, 2u, 15u}) { phase(3, {nd, 2, o, 0, false}); phase(3, {nd, 1, o, 0, true}); }
     phase(4, {4, 1, 2, 0, false}); phase(4, {4, 2, 15, 0, false});
